@@ -231,7 +231,7 @@ func validateStrUniq(clients []string) (uc aghalg.UniqChecker[string], err error
 // handleAccessSet handles requests to the POST /control/access/set endpoint.
 func (s *Server) handleAccessSet(w http.ResponseWriter, r *http.Request) {
 	list := &accessListJSON{}
-	err := json.NewDecoder(r.Body).Decode(&list)
+	err := json.NewDecoder(r.Body).Decode(list)
 	if err != nil {
 		aghhttp.Error(r, w, http.StatusBadRequest, "decoding request: %s", err)
 
